@@ -1,4 +1,4 @@
-import SamplyModel.Lemmas.BreakpadMap
+import SamplyModel.Lemmas.BreakpadReadIndex
 /-!
 # C10 — the Breakpad symbol index is independent of chunking and agrees with the .sym text
 
@@ -13,7 +13,7 @@ All theorems quantify over ALL byte strings / chunk lists — no bound on sizes;
 are the ones the Rust types impose (`u64` file offsets, `u32` index layout) and are stated explicitly.
 Only property theorems (names `C10_*`) and non-vacuity examples live in this file.
 -/
-open BP
+open BP BPS
 
 /-- Feeding the bytes of a `.sym` file to the incremental index builder in ANY partition into chunks
 (empty chunks, 1-byte chunks, cuts between `\r` and `\n`, …) gives the same outcome — the same index
@@ -121,6 +121,40 @@ theorem C10_legacy_counterexample_origin_in_func :
     (parseBody (splitLines ([49, 48, 48, 48, 32, 50, 48, 32, 49, 32, 48, 10, 73, 78, 76, 73, 78, 69, 95, 79, 82, 73, 71, 73, 78, 32, 48, 32, 103, 10] : List UInt8))).isSome = true := by
   decide
 
+/-- Agreement with the text, index part (what is proved of `C10_reading`; see `notes/C10.md` for what is
+left to the correspondence check). For every well-formed abstract file `s` (`BPS.WFIndex`: a MODULE line
+the grammar accepts; INFO / FILE / INLINE_ORIGIN / PUBLIC / FUNC / line / INLINE / STACK records in ANY
+order with fields in range, names without line breaks; distinct symbol addresses, FILE ids and
+INLINE_ORIGIN ids; any mixture of `\n`, `\r\n`, `\r\r\n` terminators; with or without final newline;
+shorter than 4 GiB) and every partition of its rendered text into chunks, the creator computes exactly
+`BPS.specIndex s`: the module-info block is the MODULE line plus the INFO lines, every FILE /
+INLINE_ORIGIN entry carries the offset and (CR-stripped) length of its line, every PUBLIC entry the
+offset and length of its line, every FUNC entry the offset of its line and the distance to the next
+PUBLIC / FUNC / INFO / STACK line (or the end of the file), all sorted by key. The offsets and lengths
+of `specIndex` are defined by arithmetic on the rendered line lengths only. -/
+theorem C10_reading_partial (pick : Pick) (s : SymFile) (h : WFIndex s) (chunks : List (List UInt8))
+    (hflat : chunks.flatten = render s) :
+    preIndex pick chunks = .ix (specIndex s) ∧
+    index pick chunks = (if serializeSafe (specIndex s) then .ok (serialize (specIndex s)) else .panic) ∧
+    (specIndex s).addrs.Pairwise (· < ·) := by
+  refine ⟨?_, index_render pick s h chunks hflat, (specIndex_ok s h).2.1⟩
+  rw [preIndex_chunk_independent, hflat]
+  exact preIndex_render pick s h
+
+/-- … and the symbol map built over the file (with or without that index stored separately) holds
+exactly `specIndex s`. -/
+theorem C10_reading_partial_map (pick : Pick) (s : SymFile) (h : WFIndex s)
+    (hm : (tag tMODULE_ s.moduleLine).isSome = true) (hs : serializeSafe (specIndex s) = true)
+    (chunks : List (List UInt8)) (hflat : chunks.flatten = render s) :
+    mapSelf pick (render s) = .ok (specIndex s) ∧
+    mapStored pick (render s) (some (serialize (specIndex s))) = .ok (specIndex s) := by
+  have h1 := mapSelf_render pick s h hm hs
+  refine ⟨h1, ?_⟩
+  rw [← h1]
+  apply mapStored_eq_mapSelf pick (render s) chunks _ hflat
+  rw [index_render pick s h chunks hflat, hs]
+  rfl
+
 /-! ### Non-vacuity -/
 
 /-- `MODULE a b 0123456789ab c\nFUNC 1000 20 0 f\n1000 20 1 0\nINLINE_ORIGIN 0 g\n` -/
@@ -131,3 +165,38 @@ example : (match index Pick.first [C10_exampleText] with | .ok b => b.length | _
   unfold index
   rw [preIndex_eq_spec]
   decide
+
+/-- a small abstract file: `FILE 0 a.c\r`, `FUNC 1000 20 0 f`, `1000 20 7 0`, `PUBLIC 2000 0 p` after a
+MODULE line, final newline -/
+def C10_exampleFile : SymFile :=
+  { moduleLine := [77, 79, 68, 85, 76, 69, 32, 76, 105, 110, 117, 120, 32, 120, 56, 54, 95, 54, 52, 32, 66, 69, 52, 69, 57, 55, 54, 67, 51, 50, 53, 50, 52, 54, 69, 69, 57, 68, 54, 66, 55, 56, 52, 55, 65, 54, 55, 48, 66, 50, 65, 57, 48, 32, 120]
+    moduleCrs := 0
+    lines := [⟨.file 0 [97, 46, 99], 1⟩, ⟨.func false 4096 32 0 [102], 0⟩, ⟨.line 4096 32 7 0, 0⟩,
+              ⟨.pub false 8192 0 [112], 0⟩]
+    finalNl := true }
+
+theorem C10_exampleFile_wf : WFIndex C10_exampleFile := by
+  have hn : ∀ (b : UInt8), isSpTab b = false → NoLeadSp [b] := by
+    intro b hb c r h; cases h; exact hb
+  have hn3 : NoLeadSp ([97, 46, 99] : List UInt8) := by
+    intro c r h; cases h; decide
+  constructor
+  · decide
+  · decide
+  · decide
+  · intro l hl
+    simp only [C10_exampleFile, List.mem_cons, List.not_mem_nil, or_false] at hl
+    rcases hl with rfl | rfl | rfl | rfl
+    · exact ⟨by decide, ⟨by decide, by decide, hn3, by decide⟩⟩
+    · exact ⟨by decide, by decide, by decide, ⟨by decide, by decide, hn _ (by decide), by decide⟩⟩
+    · exact ⟨by decide, by decide, by decide, by decide⟩
+    · exact ⟨by decide, by decide, ⟨by decide, by decide, hn _ (by decide), by decide⟩⟩
+  · decide
+  · decide
+  · decide
+  · decide
+
+/-- its index: FILE entry (0, 10, 56); symbols 0x1000 (FUNC, block 29 bytes at 68) and 0x2000 (PUBLIC) -/
+example : (specIndex C10_exampleFile).files = [⟨0, 10, 56⟩] ∧
+    (specIndex C10_exampleFile).addrs = [4096, 8192] ∧
+    (specIndex C10_exampleFile).entries = [⟨1, 29, 68⟩, ⟨0, 15, 97⟩] := by decide
